@@ -13,6 +13,7 @@ import (
 	"runtime"
 	"strings"
 	"sync"
+	"syscall"
 	"time"
 )
 
@@ -401,4 +402,53 @@ func LibraryGoroutines() (int, string) {
 		}
 	}
 	return count, sample
+}
+
+// Blackhole opens a TCP endpoint on ip whose connection attempts neither complete nor get refused: a listening socket
+// with backlog 0 whose accept queue is kept full by filler connections, so further SYNs are silently dropped (what a
+// powered-off host behind a router looks like). Returns the port and a closer; ok=false if the platform does not
+// produce a stalled connect this way.
+func Blackhole(ip [4]byte) (port uint16, closer func(), ok bool) {
+	fd, err := syscall.Socket(syscall.AF_INET, syscall.SOCK_STREAM, 0)
+	if err != nil {
+		return 0, nil, false
+	}
+	sa := &syscall.SockaddrInet4{Port: 0, Addr: ip}
+	if err := syscall.Bind(fd, sa); err != nil {
+		syscall.Close(fd)
+		return 0, nil, false
+	}
+	if err := syscall.Listen(fd, 0); err != nil {
+		syscall.Close(fd)
+		return 0, nil, false
+	}
+	lsa, err := syscall.Getsockname(fd)
+	if err != nil {
+		syscall.Close(fd)
+		return 0, nil, false
+	}
+	port = uint16(lsa.(*syscall.SockaddrInet4).Port)
+	addr := fmt.Sprintf("%d.%d.%d.%d:%d", ip[0], ip[1], ip[2], ip[3], port)
+	var fillers []net.Conn
+	closer = func() {
+		for _, c := range fillers {
+			c.Close()
+		}
+		syscall.Close(fd)
+	}
+	// fill the accept queue until a connect stalls
+	for i := 0; i < 8; i++ {
+		c, err := net.DialTimeout("tcp4", addr, 150*time.Millisecond)
+		if err != nil {
+			var ne net.Error
+			if errors.As(err, &ne) && ne.Timeout() {
+				return port, closer, true
+			}
+			closer()
+			return 0, nil, false
+		}
+		fillers = append(fillers, c)
+	}
+	closer()
+	return 0, nil, false
 }
